@@ -442,9 +442,11 @@ def hx_request_cases(thorough):
         case(hdr=(a, b))
         if thorough:
             case(hdr=(b, a), body="cl")
+            case(start="get", hdr=(b, a))
+            case(hdr=(a, b), body="cl", trailers="one")
     if thorough:
         for s in S:
-            for h in ("cookie2", "host_other", "value_crlf", "upper_name", "connection"):
+            for h in names:
                 case(start=s, hdr=(h,))
             case(start=s, body="nocl", trailers="one")
     return out
